@@ -971,7 +971,8 @@ impl<'a> ActiveFileSet<'a> {
     }
 
     fn apply_retention(&mut self, fs: impl Filesystem, max_files: usize) {
-        while self.file_set.len() >= max_files {
+        // `max_files` may be zero, when a single file is kept and room is needed for a new one
+        while !self.file_set.is_empty() && self.file_set.len() >= max_files {
             let mut path = PathBuf::from(self.dir);
             path.push(self.file_set.pop().unwrap());
 
